@@ -319,7 +319,8 @@ class Algebra(KFamily):
             out.append({"op": "from_vector", "data": list(range(1, R * sum(s) + 1)), "shape": s, "w": False})
             # a parameter vector that is not a vector: 2 x n/2, n x 1 x 1, 0-d
             nv = R * sum(s)
-            out.append({"op": "from_vector", "data": list(range(1, 2 * nv + 1)), "shape": s, "w": False, "as": "2rows"})
+            if nv >= 2:     # (2 x 1 is a column)
+                out.append({"op": "from_vector", "data": list(range(1, 2 * nv + 1)), "shape": s, "w": False, "as": "2rows"})
             out.append({"op": "from_vector", "data": list(range(1, nv + 1)), "shape": s, "w": False, "as": "3d"})
             out.append({"op": "update", "K": K, "modes": [0, -1][: N + 1], "data": self._data(rng, K, [-1, 0])})
             out.append({"op": "update", "K": K, "modes": [0], "data": self._data(rng, K, [0])[:-1]})
@@ -418,7 +419,7 @@ class Algebra(KFamily):
         if op == "construct":
             return {"op": "k_construct", "factors": c["factors"], "weights": c["weights"]}
         if op == "from_vector":
-            if c.get("as", "1d") in ("2rows", "3d"):
+            if self.spec_rejects(c) is True and c.get("as", "1d") in ("2rows", "3d"):
                 # outside the model's domain (its argument is a list): answered by the specification alone, see evaluate
                 return {"op": "k_from_vector", "data": [], "shape": c["shape"], "w": c["w"]}
             return {"op": "k_from_vector", "data": c["data"], "shape": c["shape"], "w": c["w"]}
@@ -455,7 +456,7 @@ class Algebra(KFamily):
         impls = [call(self.impl, c) for c in cases]
         models = drive([self.req(c) for c in cases])
         for k, c in enumerate(cases):
-            if c["op"] == "from_vector" and c.get("as", "1d") in ("2rows", "3d"):
+            if c["op"] == "from_vector" and self.spec_rejects(c) is True and c.get("as", "1d") in ("2rows", "3d"):
                 models[k] = {"reject": True}
         # second stage for the vector round trip: the model's from_vector on the model's vector
         second = {}
@@ -564,7 +565,7 @@ class Algebra(KFamily):
             return not (0 <= c["mode"] < N)
         if op == "from_vector":
             # a vector (1-d, n x 1 or 1 x n) whose length is a positive multiple of the parameters per component
-            if c.get("as", "1d") in ("2rows", "3d"):
+            if c.get("as", "1d") == "3d" or (c.get("as") == "2rows" and len(c["data"]) > 2):
                 return True
             per = sum(c["shape"]) + (1 if c["w"] else 0)
             if per == 0 or len(c["data"]) == 0:
